@@ -39,6 +39,11 @@ typedef struct lltd_iface_state {
 
 static lltd_iface_state *g_iface_states = NULL;
 
+/* Most observations (seen Probe/Train frames) kept per interface between two Queries. */
+#ifndef LLTD_SEE_LIST_MAX
+#define LLTD_SEE_LIST_MAX 1024
+#endif
+
 #ifdef D3VI1_LLTDRESPONDER_VERIF
 #include "lltdBlock_contracts.h" /* verification-only function contracts; never defined in a normal build */
 #endif
@@ -512,6 +517,12 @@ static void parseProbe(void *inFrame, lltd_iface_state *st, void *iface_ctx) {
 
     bool forUs = compareEthernetAddress(&header->realDestination, &our_mac);
     if (!forUs) {
+        return;
+    }
+
+    /* Bound what a flood of Probes from distinct sources can make us retain between Queries. */
+    if (st->see_list_count >= LLTD_SEE_LIST_MAX) {
+        log_warning("parseProbe: observation list full (%u), dropping probe", (unsigned)st->see_list_count);
         return;
     }
 
